@@ -361,7 +361,7 @@ func (b *builder) genValue(label string, ty *Type, depth int, forConst bool) *Va
 		case "i64":
 			return &Value{Kind: "int", I: rapid.SampledFrom([]int64{0, 1, -1, 42, 1 << 40, -(1 << 40), 9223372036854775807, -9223372036854775808}).Draw(t, label+".i")}
 		case "double":
-			return &Value{Kind: "double", D: rapid.SampledFrom([]float64{0, 1.5, -2.25, 3, 1000.125, 1.5e3, 0.001, 0.0000001, 1.23456789, -0.00000075, 6.62607015e-34, 12345678.901234567, 2.5e10, -9.87654321e15}).Draw(t, label+".d")}
+			return &Value{Kind: "double", D: rapid.SampledFrom([]float64{0, 1.5, -2.25, 3, 1000.125, 1.5e3, 0.001, 0.0000001, 1.23456789, -0.00000075, 6.62607015e-34, 12345678.901234567, 2.5e10, -9.87654321e15, 2.5e-8, 1.25e9, -7.5e-9}).Draw(t, label+".d")}
 		case "string":
 			return &Value{Kind: "string", S: rapid.SampledFrom(stringValues(b.c)).Draw(t, label+".s")}
 		case "binary":
@@ -570,6 +570,10 @@ func GenProgram(c *Cfg) func(t *rapid.T) *Program {
 					}
 				}
 			}
+			// the include statements need not follow the order in which the files were written
+			if len(f.Includes) > 1 && rapid.Bool().Draw(t, "inclshuffle") {
+				f.Includes = rapid.Permutation(f.Includes).Draw(t, "inclorder")
+			}
 			// namespaces
 			if rapid.IntRange(0, 2).Draw(t, "ns?") != 0 {
 				pk := strings.ReplaceAll(c.genName(t, pkgNames, "pkg", []string{"lower", "digit"}), "_", "") + "pkg"
@@ -581,7 +585,13 @@ func GenProgram(c *Cfg) func(t *rapid.T) *Program {
 								v = "org." + pk
 							}
 						}
-						f.Namespaces = append(f.Namespaces, Namespace{sc, v})
+						ns := Namespace{Scope: sc, Value: v}
+						if sc != "*" && fi < nf-1 && rapid.IntRange(0, 3).Draw(t, "ns.vendor") == 0 {
+							// the file advertises a vendored location (used only with use_vendor and an
+							// include statement that asks for it; the generated include statements do not)
+							ns.Vendor = "vendored.example/" + strings.ReplaceAll(v, ".", "/")
+						}
+						f.Namespaces = append(f.Namespaces, ns)
 					}
 				}
 			}
